@@ -27,8 +27,8 @@ ASSUMPTIONS = [
     'a failed extend/update may have applied a prefix of its items (narrow relaxation); any other failed operation must leave the pre-state',
 ]
 TIERS = {
-    'quick': {'runs': 32, 'wall_cap': 80, 'chunk': 1, 'examples': 200, 'steps': 25, 'min_budget': 40, 'min_each': 20},
-    'thorough': {'runs': 480, 'wall_cap': 1200, 'chunk': 1, 'examples': 500, 'steps': 40, 'min_budget': 120, 'min_each': 40},
+    'quick': {'runs': 32, 'wall_cap': 80, 'chunk': 1, 'det_sample': 3, 'examples': 200, 'steps': 25, 'min_budget': 40, 'min_each': 20},
+    'thorough': {'runs': 480, 'wall_cap': 1200, 'chunk': 1, 'det_sample': 6, 'examples': 500, 'steps': 40, 'min_budget': 120, 'min_each': 40},
 }
 
 OP_BUDGET = 60_000     # traced line events per operation; the largest legitimate operation of this workload needs < 5000
